@@ -86,6 +86,22 @@ def dispatched_fields(unit, ver, k, t, c):
 def replay(prop, world, ob):
     """Replay a counter-model: same pre-state into the real gateway and the reference, one received line."""
     m = ob.get("model") or {}
+    if ob.get("backend") == "structural" and m.get("lines"):
+        # a table obligation: its witness is a list of lines; each one from a known, awake node with one child under the named version
+        state = {"nodes": {1: {"children": {1: {"type": 6}}}}}
+        tried = []
+        for line in m["lines"]:
+            for payload_line in (line, line.rsplit(";", 1)[0] + ";"):
+                try:
+                    diffs = rm.run_history(m.get("version"), [("recv", payload_line)], state=state)
+                except Exception as e:  # noqa: BLE001
+                    tried.append({"line": payload_line, "harness-error": repr(e)})
+                    continue
+                hit = [d for d in diffs if prop in d[0]]
+                tried.append({"line": payload_line, "diffs": [d[1] for d in diffs][:2]})
+                if hit:
+                    return {"confirmed": True, "version": m.get("version"), "pre_state": "node 1 with child 1 known", "line": payload_line, "observed": hit[0][1]}
+        return {"confirmed": False, "tried": tried[:6]}
     st, mver, metric = state_from_model(m)
     uver = native.unit_version(ob["unit"])
     msg = m.get("message") or {}
